@@ -172,6 +172,18 @@ impl<'a> Ctx<'a> {
             }
             self.b_x = x;
         }
+        if self.prop == "C06" {
+            // the same buffer through partial lexers of both back ends
+            let mut x = std::mem::take(&mut self.b_x);
+            real(d.e.idx, 0, &Req { input: &boxed, partial: true, trace: false }, &mut x);
+            let ptc = x.clone();
+            real(d.e.idx, 1, &Req { input: &boxed, partial: true, trace: false }, &mut x);
+            self.runs += 2;
+            if ptc != x {
+                self.complain("BACKENDS-DIFFER", input, format!("partial lexers: tailcall {:?} end {}..{} flags {} | state machine {:?} end {}..{} flags {}", ptc.items, ptc.end_start, ptc.end_pos, ptc.flags, x.items, x.end_start, x.end_pos, x.flags), json!({"partial": true}));
+            }
+            self.b_x = x;
+        }
         if self.prop == "C06" && tc != sm {
             self.complain("BACKENDS-DIFFER", input, format!("tailcall {:?} end {}..{} flags {} | state machine {:?} end {}..{} flags {}", tc.items, tc.end_start, tc.end_pos, tc.flags, sm.items, sm.end_start, sm.end_pos, sm.flags), json!({}));
         }
